@@ -1,24 +1,32 @@
 #!/venv/bin/python
-"""usage: keep_seed.py <Cxx> <a|b> <caught:yes|no|partial> "<needs>" "<detected by>"
-Copies /tmp/seed/out/Cxx/{x}.diff and {x}_demo.py to /verif/seeded/Cxx-x/ and writes meta.json."""
-import json, os, shutil, sys
+"""usage: keep_seed.py <Cxx> <a|b> <caught:yes|no|base-only> "<needs>" "<detected by>" [ported.diff]
+Copies seeded/pending/Cxx/{x}.diff and {x}_demo.py to /verif/seeded/Cxx-x/ and writes meta.json.
+With a ported diff: patch.diff is the port to the current /repo HEAD, patch.orig.diff the sub-agent's original."""
+import json, os, shutil, subprocess, sys
 pid, x, caught, needs, by = sys.argv[1:6]
-src = f"/tmp/seed/out/{pid}"
+ported = sys.argv[6] if len(sys.argv) > 6 else None
+src = f"/verif/seeded/pending/{pid}"
 dst = f"/verif/seeded/{pid}-{x}"
 os.makedirs(dst, exist_ok=True)
-shutil.copy(f"{src}/{x}.diff", f"{dst}/patch.diff")
+if ported:
+    shutil.copy(ported, f"{dst}/patch.diff")
+    shutil.copy(f"{src}/{x}.diff", f"{dst}/patch.orig.diff")
+else:
+    shutil.copy(f"{src}/{x}.diff", f"{dst}/patch.diff")
 shutil.copy(f"{src}/{x}_demo.py", f"{dst}/demo.py")
-notes = open(f"{src}/notes.md").read() if os.path.exists(f"{src}/notes.md") else ""
-open(f"{dst}/notes.md", "w").write(notes)
+if os.path.exists(f"{src}/notes.md"):
+    shutil.copy(f"{src}/notes.md", f"{dst}/notes.md")
+head = subprocess.run(["git", "-C", "/repo", "rev-parse", "--short", "HEAD"], capture_output=True, text=True).stdout.strip()
 meta = dict(
     property=pid,
-    origin="independent sub-agent given only the property text and a scratch worktree",
+    origin="independent sub-agent given only the property text and a scratch worktree of /repo at 971cc91 (before the fix: commits)",
+    applies_to=("971cc91 only (see note)" if caught == "base-only" else f"/repo HEAD {head}" + (" (ported by hand from the original, which was written against 971cc91 and conflicts with a later fix: commit)" if ported else "")),
     needs_to_manifest=needs,
     confirmed=dict(
         pinned_doctests="208 passed with the change",
-        functional_tests="tests/ (minus test_package.py) all passed with the change",
+        functional_tests="tests/ (minus test_package.py): 593 passed with the change",
         demo="exit 0 on unchanged tree, exit 1 with the change",
-        how="tools/try_patch.sh patch.diff --demo demo.py --suites " + pid,
+        how=f"tools/try_patch.sh seeded/{pid}-{x}/patch.diff --demo seeded/{pid}-{x}/demo.py --suites {pid}",
     ),
     detected_by_checks=caught,
     detected_by=by,
